@@ -83,18 +83,19 @@ static double chisq_pvalue(int n, double x2)
      *         upper incomplete gamma function.
      */
     } else if ((n & 1) == 0) {
-	double c = exp(-x);
-	double f = 1.0;
+	const double log_x = log(x);
 	double s = 0.0;
 
+	/*
+	 * Each term is e^(-x) x^i / i!, formed in the log domain: for
+	 * large x, e^(-x) underflows and x^i / i! overflows long before
+	 * their product does.
+	 */
 	n >>= 1;
 	for (int i = 0; i < n; ++i) {
-	    if (i != 0) {
-		f *= x / (double)i;
-	    }
-	    s += f;
+	    s += exp(-x + (double)i * log_x - lgamma((double)i + 1.0));
 	}
-	result = c * s;
+	result = s;
 
     /*
      * For n odd,
@@ -104,17 +105,19 @@ static double chisq_pvalue(int n, double x2)
      *     with the same conditions as above
      */
     } else {
-	double c1 = erfc(sqrt(x));
-	double c2 = exp(-x) / sqrt(M_PI * x);
-	double f = 1.0;
-	double s = 0.0;
+	const double log_x = log(x);
+	double s = erfc(sqrt(x));
 
+	/*
+	 * Each term is e^(-x) x^(i - 1/2) / Gamma(i + 1/2), formed in
+	 * the log domain as above.
+	 */
 	n >>= 1;
 	for (int i = 1; i <= n; ++i) {
-	    f *= x / (i - 0.5);
-	    s += f;
+	    s += exp(-x + ((double)i - 0.5) * log_x -
+		    lgamma((double)i + 0.5));
 	}
-	result = c1 + c2 * s;
+	result = s;
     }
 
     return result;
